@@ -187,6 +187,7 @@ type Exec struct {
 	merged       int
 	noMerge      bool
 	outputs      []InputVar
+	loopPrecise  map[string][]preciseWrite
 }
 
 func NewExec(w *World) *Exec {
